@@ -33,6 +33,8 @@ ASSUMPTIONS = [
     "oracle: equality of ObjectFile.save text and of the linked image (save text + image bytes) with the reference state; no model of the compiler is involved",
     "every configuration process is deterministic: ASLR off (setarch -R), fixed minimal environment, fixed argv/cwd/stdin; the reference "
     "configuration is run twice and compared, and every divergence is re-run (and must reproduce itself) before it is reported",
+    "the worker disables the logging module (LogRecord creation allocates depending on the wall clock) and formats its own timing "
+    "allocation-neutrally; ppci's warnings are therefore not printed",
     "stage digests come from a ppci ReportGenerator passed as cc(reporter=...) in every state alike (observation only, used to name the locus)",
     "targets avr, stm8 (C front end raises KeyError 'ir-typ i32' for every unit) and m68k (2 of 102 unit/level pairs compile, several hang) "
     "are dropped by name; (unit, target, level) triples that raise the same error in every state are counted as unsupported, not as violations",
@@ -54,6 +56,7 @@ REF = (0, "pymalloc", 0)
 PAIRS = [("arm", "x86_64"), ("riscv", "arm:thumb"), ("riscv:rvc", "or1k"), ("microblaze", "mips"), ("msp430", "xtensa")]
 QUICK_SKIP = {"pressure12", "pressure16", "pressure24", "pressure32", "pressure10c", "pressure14c", "pressure20c"}
 HEAVY = {"pressure24", "pressure32", "pressure20c"}
+QUICK_EXTRA = {"riscv": ["pressure12"], "riscv:rvc": ["pressure12"]}   # riscv needs >= 12 live values to show allocator choices
 LEVELS = (0, 2)
 ASM = "asm:asm_basic"
 
@@ -131,6 +134,8 @@ def shards(tier, cfg, ci, programs, asm_families):
     chunks = [progs[i::nchunk] for i in range(nchunk)]   # interleaved: every chunk starts with a simple unit
     for (t, x) in pairs:
         for k, chunk in enumerate(chunks):
+            if tier == "quick" and k == nchunk - 1:
+                chunk = chunk + QUICK_EXTRA.get(t, [])
             asm = [tt for tt in (t, x) if family(tt) in asm_families] if k == 0 else []
             out.append(script_shard(t, x, chunk, pattern, asm))
     # exact short histories from the pristine process
@@ -215,7 +220,7 @@ def launch(cfg, d, repo, want_texts=False):
         specfile, textfile = os.path.join(tmp, "spec.json"), os.path.join(tmp, "texts.jsonl")
         with open(specfile, "w") as f:
             json.dump(spec, f, sort_keys=True)
-        inner = "exec %s%s -P %s" % ("setarch x86_64 -R " if aslr_off_available() else "", PYTHON, WORKER)
+        inner = "exec %s%s -S -P %s" % ("setarch x86_64 -R " if aslr_off_available() else "", PYTHON, WORKER)
         inner += ' <"$0" 3>"$1"'
         r = subprocess.run(["/bin/sh", "-c", inner, specfile, textfile if want_texts else "/dev/null"], stdin=subprocess.DEVNULL,
                            env=env, cwd=VERIF, stdout=subprocess.PIPE, stderr=subprocess.PIPE)
@@ -269,6 +274,10 @@ def compare(ref, got):
     return first_divergence(ref, got) or ("error" if ("error" in ref or "error" in got) else "object")
 
 
+def canon(text):
+    return "\n".join(line.split(" ;; ")[0] for line in text.split("\n"))
+
+
 def strip(rec):
     return {k: v for k, v in rec.items() if k not in ("cpu", "texts")}
 
@@ -286,23 +295,33 @@ def run(ctx):
         ctx.assumptions.append("setarch -R unavailable: ASLR could not be switched off; irreproducible configurations are reported as harness errors")
 
     ref_shards = shards(ctx.tier, REF, 0, programs, asm_families)
-    tasks = [("refA", REF, d) for d in ref_shards]
+    tasks = [("run", REF, d) for d in ref_shards]
     if ctx.tier == "thorough":
-        tasks += [("refA", REF, d) for d in fresh_shards(programs)]
-    # the reference configuration a second time: quick the first script of every target pair, thorough every script
-    seen_pairs = set()
-    for d in ref_shards:
-        if "pat" in d and (ctx.tier == "thorough" or d["t"] not in seen_pairs):
-            seen_pairs.add(d["t"])
-            tasks.append(("refB", REF, d))
+        tasks += [("run", REF, d) for d in fresh_shards(programs)]
+    dups = []
     for ci, c in enumerate(cfgs[1:], 1):
-        tasks += [("cfg", c, d) for d in shards(ctx.tier, c, ci, programs, asm_families)]
+        mine = shards(ctx.tier, c, ci, programs, asm_families)
+        tasks += [("run", c, d) for d in mine]
+        if c == (0, "malloc", 0):
+            dups += [("dup", c, d) for d in mine if "pat" in d]
+    # self-check of the harness: the reference configuration and the first glibc-malloc configuration are run a
+    # second time and must reproduce themselves record by record (quick: the first script of every target pair)
+    dups = [("dup", REF, d) for d in ref_shards if "pat" in d] + dups
+    if ctx.tier == "quick":
+        seen, keep = set(), []
+        for tag, c, d in dups:
+            if (c, d["t"]) not in seen:
+                seen.add((c, d["t"]))
+                keep.append((tag, c, d))
+        dups = keep
+    dup_keys = {(c, json.dumps(d, sort_keys=True)) for _, c, d in dups}
+    tasks += dups
 
     prog_rank = {p: i for i, p in enumerate(programs)}
     prog_rank[ASM] = len(programs)
     cfg_rank = {c: i for i, c in enumerate(cfgs)}
     reftab = {}     # (unit, target, level) -> reference record
-    refA = {}       # shard -> records (kept for the refB comparison)
+    refA = {}       # (cfg, shard) -> records kept for the comparison with the second run
     states = transitions = traces = 0
     unsupported = set()
 
@@ -349,18 +368,17 @@ def run(ctx):
         for tag, c, d, fut in futs:
             recs = fut.result()
             transitions += len(recs)
-            dk = json.dumps(d, sort_keys=True)
-            if tag == "refA":
-                refA[dk] = [strip(r) for r in recs]
+            dk = (c, json.dumps(d, sort_keys=True))
+            if tag == "run":
+                if dk in dup_keys:
+                    refA[dk] = [strip(r) for r in recs]
                 check_records(c, d, recs)
-            elif tag == "refB":
+            else:
                 mine = [strip(r) for r in recs]
                 if mine != refA[dk]:
                     diff = [(a, b) for a, b in zip(refA[dk], mine) if a != b][:1]
-                    raise core.HarnessError("reference configuration is not reproducible: %r" % (diff,))
-                ctx.count("reference_ops_rerun_identical", len(recs))
-            else:
-                check_records(c, d, recs)
+                    raise core.HarnessError("configuration [%s] does not reproduce itself: %r" % (cfg_str(c), diff))
+                ctx.count("ops_rerun_identical", len(recs))
         refA.clear()
         # every divergence is re-run before it is believed (a configuration must reproduce itself); the re-run
         # also shrinks the witness to the shortest history that still diverges and fetches the stage texts
@@ -398,7 +416,7 @@ def side(cfg, ops, j=None):
 
 def run_pair(w, repo):
     """Run the reference side and the diverging side of a witness, keeping the stage texts.
-    -> (violated, detail, operations executed, record of the diverging side)"""
+    -> (violated, detail, operations executed, record of the diverging side, locus stage)"""
     out = {}
     nops = 0
     for name in ("ref", "got"):
@@ -409,19 +427,19 @@ def run_pair(w, repo):
     ref, got = out["ref"], out["got"]
     stage = compare(ref, got)
     if stage is None:
-        return False, "both give %s" % describe(got), nops, got
+        return False, "both give %s" % describe(got), nops, got, None
     detail = "%s vs %s; first diverging stage %s" % (describe(got), describe(ref), stage)
     for x, y in zip(ref["texts"], got["texts"]):
-        if x[2] != y[2]:
+        if canon(x[2]) != canon(y[2]):
             detail += "%s, %s" % (" of '%s'" % x[1] if x[1] else "", first_text_diff(x[2], y[2]))
             break
-    return True, detail, nops, got
+    return True, detail, nops, got, stage
 
 
 def first_text_diff(ta, tb):
     la, lb = ta.splitlines(), tb.splitlines()
     for n, (x, y) in enumerate(zip(la, lb)):
-        if x != y:
+        if x.split(" ;; ")[0] != y.split(" ;; ")[0]:
             return "line %d: %r vs %r" % (n + 1, y.strip()[:90], x.strip()[:90])
     return "%d vs %d lines" % (len(lb), len(la))
 
@@ -449,18 +467,20 @@ def settle(found, repo):
     detail = "?"
     for g in cands:
         w = {"unit": unit, "stage": found["stage"], "ref": side(REF, [unit]), "got": g}
-        v, detail, n, got = run_pair(w, repo)
+        v, detail, n, got, stage = run_pair(w, repo)
         nops += n
-        if v:
-            again = launch(gcfg, word_shard(g["ops"]), repo)   # the diverging state once more: it must reproduce itself
-            nops += len(again)
-            if outcome_of(again[g["j"]]) != outcome_of(got):
-                return False, "state [%s] gave %s, then %s" % (cfg_str(gcfg), describe(got), describe(again[g["j"]])), w, nops
-            return True, headline(w) + detail, w, nops
+        if not v or (g is not cands[-1] and stage != found["stage"]):
+            continue   # no divergence, or one with another locus than the one this key names: keep looking
+        again = launch(gcfg, word_shard(g["ops"]), repo)   # the diverging state once more: it must reproduce itself
+        nops += len(again)
+        if outcome_of(again[g["j"]]) != outcome_of(got):
+            detail = "state [%s] gave %s, then %s" % (cfg_str(gcfg), describe(got), describe(again[g["j"]]))
+            continue
+        return True, headline(w) + detail, w, nops
     return False, detail, found, nops
 
 
 def replay(w):
     from vf import core
-    violated, detail, _, _ = run_pair(w, core.REPO)
+    violated, detail, _, _, _ = run_pair(w, core.REPO)
     return violated, headline(w) + detail
